@@ -79,6 +79,10 @@ static std::vector<Shape> lod(const std::string& name) {
     if (name == "small") return product({"", "p", "q"}, {{}, pick({0}), pick({2}), pick({5}), pick({6}), pick({7}), pick({10})}, {{}, {AX}, {APX}}, 1);
     if (name == "env") return product({""}, declsets(GOODDECL, 3), {{}}, 1);                   // every error-free environment with <= 3 declarations
     if (name == "envs") return product({""}, {{}, pick({0}), pick({5}), pick({10}), pick({0, 5}), pick({0, 6}), pick({5, 10}), pick({6, 10}), pick({0, 5, 10}), pick({1, 5, 10}), pick({0, 6, 10}), pick({5, 11})}, {{}}, 1);
+    if (name == "env6") return product({""}, {{}, pick({0}), pick({5}), pick({0, 5}), pick({5, 10}), pick({0, 6, 10})}, {{}}, 1);
+    if (name == "env4") return product({""}, {{}, pick({0, 5}), pick({5, 10}), pick({1, 6, 10})}, {{}}, 1);
+    if (name == "leaf") return product(PFX6, {{}, pick({0}), pick({2}), pick({5}), pick({6}), pick({7}), pick({10}), pick({11})}, attrsets(1), 2);
+    if (name == "attr2") return product({""}, declsets({0, 5, 6, 7, 10}, 2), attrsets(2), 3);   // <= 2 attributes incl. expanded-name collisions
     if (name == "midmod") return product({"", "p"}, {{}, pick({1}), pick({2}), pick({6}), pick({7}), pick({10}), pick({0, 5})}, {{}}, 1);
     if (name == "decl1") return product({""}, declsets(ALLDECL, 1), {{}}, 1);
     if (name == "use") return product(PFX6, {{}}, attrsets(1), 1);
@@ -348,10 +352,12 @@ static ElemSpec case_sib(uint64_t i) {  // a declaration in the first child must
 // ladders: thresholds read from the code: ElemStack/WFElemStack prefix map 16,20,25,31,38,47,58,72 (x1.25), element stack 32,
 // SAX2 fPrefixes stack 30 / fPrefixCounts 10, attribute vectors 32, hashed duplicate check above 100 attributes
 static std::vector<ElemSpec> LADDER;
+static bool g_ladder_quick = false;
 static std::vector<std::string> LADDER_LABEL;
 static void init_ladder() {
     auto N = [](int i) { return "n" + std::to_string(i); };
     std::vector<int> sizes = {15, 16, 17, 20, 21, 25, 26, 29, 30, 31, 32, 33, 38, 39, 47, 48, 58, 59, 64, 65, 66, 72, 73};
+    if (g_ladder_quick) sizes = {16, 17, 31, 32, 33, 64, 65, 66};
     for (int n : sizes) {
         for (int variant = 0; variant < 4; variant++) {  // one element, n declarations; uses first/middle/last prefix before or after the declarations
             ElemSpec e; e.local = "a"; e.prefix = variant & 1 ? N(n - 1) : N(0); e.text = variant & 2;
@@ -360,6 +366,15 @@ static void init_ladder() {
             for (int i = 0; i < n; i++) e.attrs.push_back({"xmlns:" + N(i), "urn:" + std::to_string(i % 7 == 3 ? 3 : i)});  // some prefixes share a namespace name
             if (!(variant & 1)) e.attrs.insert(e.attrs.end(), uses.begin(), uses.end());
             LADDER.push_back(e); LADDER_LABEL.push_back("one-element-" + std::to_string(n) + "-decls-v" + std::to_string(variant));
+        }
+        for (int variant = 0; variant < 2; variant++) {   // every declared prefix is used (an entry lost or duplicated while the map grows cannot hide)
+            ElemSpec e; e.local = "a"; e.prefix = N(n / 3);
+            std::vector<AttrSpec> uses;
+            for (int i = 0; i < n; i++) uses.push_back({N(i) + ":a" + std::to_string(i), std::to_string(i)});
+            if (variant) e.attrs = uses;
+            for (int i = 0; i < n; i++) e.attrs.push_back({"xmlns:" + N(i), "urn:" + std::to_string(i)});
+            if (!variant) e.attrs.insert(e.attrs.end(), uses.begin(), uses.end());
+            LADDER.push_back(e); LADDER_LABEL.push_back("one-element-" + std::to_string(n) + "-decls-all-used-v" + std::to_string(variant));
         }
         {   // unbound prefix next to n bound ones (lookup must walk the whole grown map and still fail)
             ElemSpec e; e.local = "a";
@@ -376,6 +391,7 @@ static void init_ladder() {
         for (int variant = 0; variant < 2; variant++) {  // chain of n nested elements, one prefix (and every third level a default namespace) each; the leaf uses outermost/middle/innermost
             ElemSpec leaf; leaf.local = "z"; leaf.prefix = variant ? N(0) : N(n - 1); leaf.text = variant;
             leaf.attrs = {{N(0) + ":x", "1"}, {N(n / 2) + ":y", "2"}, {N(n - 1) + ":z", "3"}};
+            if (!variant) { leaf.attrs.clear(); for (int i = 0; i < n; i++) leaf.attrs.push_back({N(i) + ":a" + std::to_string(i), std::to_string(i)}); }   // all prefixes of the chain
             ElemSpec cur = leaf;
             for (int i = n - 1; i >= 0; i--) {
                 ElemSpec e; e.local = "e" + std::to_string(i % 3); e.prefix = (i % 2) ? N(i) : "";
@@ -400,7 +416,9 @@ static void init_ladder() {
             LADDER.push_back(r2); LADDER_LABEL.push_back("root-" + std::to_string(nm.first) + "-child-" + std::to_string(nm.second) + (leak ? "-sibling-out-of-scope" : ""));
         }
     }
-    for (int n : {31, 32, 33, 99, 100, 101, 102, 103, 130}) {  // many ordinary attributes; p and q are bound to the same name on the parent
+    std::vector<int> asizes = {31, 32, 33, 99, 100, 101, 102, 103, 130};
+    if (g_ladder_quick) asizes = {33, 100, 101, 102};
+    for (int n : asizes) {  // many ordinary attributes; p and q are bound to the same name on the parent
         for (int variant = 0; variant < 6; variant++) {
             ElemSpec root; root.local = "a"; root.attrs = {{"xmlns:p", "urn:same"}, {"xmlns:q", "urn:same"}, {"xmlns:o", "urn:other"}};
             ElemSpec e; e.local = "b";
@@ -624,7 +642,7 @@ int main(int argc, char** argv) {
     else if (g_space == "two") { L1 = lod(a.str("l1", "env")); L2 = lod(a.str("l2", "mid")); R.total = L1.size() * L2.size(); }
     else if (g_space == "three") { L1 = lod(a.str("l1", "envs")); L2 = lod(a.str("l2", "midmod")); L3 = lod(a.str("l3", "mid")); R.total = L1.size() * L2.size() * L3.size(); }
     else if (g_space == "sib") { L1 = lod(a.str("l1", "env")); L2 = lod(a.str("l2", "decl1")); L3 = lod(a.str("l3", "use")); R.total = L1.size() * L2.size() * 2 * L3.size(); }
-    else if (g_space == "ladder") { init_ladder(); R.total = LADDER.size(); R.describe = [](uint64_t i) { return "{\"label\":" + jstr(LADDER_LABEL[i]) + "}"; }; }
+    else if (g_space == "ladder") { g_ladder_quick = a.str("ladder", "full") == "quick"; init_ladder(); R.total = LADDER.size(); R.describe = [](uint64_t i) { return "{\"label\":" + jstr(LADDER_LABEL[i]) + "}"; }; }
     else if (g_space == "witness") {
         g_strict = true; init_witness(); R.total = WITNESS.size() + WITNESS_PROGRAMS.size();
         R.describe = [](uint64_t i) { return i >= WITNESS_PROGRAMS.size() ? "{\"defect\":" + jstr(WITNESS_LABEL[i - WITNESS_PROGRAMS.size()]) + ",\"doc\":" + jstr(render_doc(case_of(i), false).substr(0, 300)) + "}"
